@@ -17,6 +17,7 @@ Fixpoint uok (p : pt) : Prop :=
   | Rep body _ _ _ => uok body
   | For body _ _ _ _ _ _ => uok body
   | Map inner _ _ => uok inner
+  | Ren inner _ => uok inner
   end.
 
 Lemma uok_subs : forall l,
